@@ -276,7 +276,9 @@ def part2_fd(ctx):
                           dict(dt=0.015625, ts=[0.0, 0.5, 1.0], wk="last")]
     stats = dict(fd_cases=0, adaptive_cases=0, adaptive_skipped_boundary=0, adaptive_skipped_schedule=0,
                  max_err_over_tol=0.0, ctl_calls=0, estimates_above_1=0, adaptive_schedules=[])
-    for ci, (me, cal, nt, gf) in enumerate(COMBOS):
+    reps = 1 if quick else 3
+    for ci, (me, cal, nt, gf) in enumerate(COMBOS * reps):
+        rep = ci // len(COMBOS)
         for li, lay in enumerate(fixed_layouts + ADAPTIVE):
             sizes = {"diagonal": [(3, 3), (1, 1)], "scalar": [(3, 1), (1, 1)], "additive": [(3, 2), (2, 3)],
                      "general": [(3, 2), (2, 3)]}
@@ -285,8 +287,8 @@ def part2_fd(ctx):
             adaptive = bool(lay.get("adaptive"))
             if adaptive and quick and gf:
                 continue
-            key = dict(method=me, cal=cal, nt=nt, grad_free=gf, layout=li, adaptive=adaptive)
-            seed = rng(ctx.seed, "c08-fd", me, cal, nt, gf, li).randrange(2 ** 31)
+            key = dict(method=me, cal=cal, nt=nt, grad_free=gf, layout=li, adaptive=adaptive, rep=rep)
+            seed = rng(ctx.seed, "c08-fd", me, cal, nt, gf, li, rep).randrange(2 ** 31)
             gen = torch.Generator().manual_seed(seed)
             sde = Smooth(nt, cal, d, m, gen)
             y0 = 0.5 * torch.randn(B, d, generator=gen, dtype=S.DT)
